@@ -173,6 +173,12 @@ def run(res, tier, seed, replay_script=None):
         if spec.get("trans"):
             lines2.append(gl.trans_cmd(spec["trans"]))
         lines2 += ["loadraw g " + " ".join(v.hex() for v in vals), "probe g 5 %d" % r.randint(1, 10 ** 6), "dump g meta", "evalb g x: @", "weights g"]
+        if len(fl) >= 2:
+            # the same grid object is re-used for a second data set (outputs rotated by one): the surrogate must follow the new data
+            M_ = len(fl)
+            vals2 = [vals[i * M_ + (k + 1) % M_] for i in range(npt) for k in range(M_)]
+            lines2 += ["loadraw g " + " ".join(v.hex() for v in vals2), "evalb g x: @"]
+            spec["_reload"] = True
     rc, cases2, so, se = gl.run_scripts(drv, lines2, wd, "pass2", timeout=1500, case_timeout=40)
     if rc != 0:
         res.violation("tsgdrv-crash", "tsgdrv exited with %d: %s" % (rc, se[-400:]), {"kind": "impl-counterexample", "script": lines2[-20:]})
@@ -186,13 +192,18 @@ def run(res, tier, seed, replay_script=None):
         script = gl.case_script(lines2, cid)
         replay = {"kind": "impl-counterexample", "script": script, "functions": [list(map(str, f)) for f in fl]}
         obs, bad = {}, False
+        evals = []
         for st in steps:
             if st.exc is not None:
                 if st.exc[0] == "hang" or st.exc[0].startswith("crash"):
                     res.violation("no-return:" + st.cmd.split()[0], "%s -> %s [%s]" % (st.cmd[:80], st.exc, script[1]), replay)
                 bad = True
                 break
+            if "evalb" in st.obs:
+                evals.append(st.obs["evalb"])
             obs.update(st.obs)
+        if evals:
+            obs["evalb"] = evals[0]
         if bad or "evalb" not in obs or "probe" not in obs:
             continue
         X = obs["probe"]
@@ -209,6 +220,24 @@ def run(res, tier, seed, replay_script=None):
         if npt >= 5:
             nontrivial += 1
         rule = spec.get("rule", fam)
+        if len(evals) == 2 and len(evals[1]) == nx * M:
+            # second data set (outputs rotated): output k must now reproduce function k+1
+            for xi in range(nx):
+                xcan = [to_canonical(spec, X[xi * d + j], j) for j in range(d)]
+                lam = sum(abs(iw[xi * npt + i]) for i in range(npt)) if len(iw) == nx * npt else 1.0
+                for k in range(M):
+                    want = fval(fl[(k + 1) % M], xcan)
+                    e = abs(evals[1][xi * M + k] - want) / (max(1.0, abs(want)) * max(1.0, lam))
+                    k1 = (k + 1) % M
+                    first_ok = abs(evals[0][xi * M + k1] - want) / (max(1.0, abs(want)) * max(1.0, lam)) <= TOL   # the grid does reproduce this function
+                    if e > TOL and first_ok:
+                        stats["violations"] += 1
+                        res.violation("reload-not-followed:%s" % fam, "after loading a second data set into the same grid evaluate still returns the first one (or neither): got %.12g, exact %.12g at x=%s [%s]" % (
+                            evals[1][xi * M + k], want, X[xi * d:(xi + 1) * d], script[1]), replay)
+                        break
+                else:
+                    continue
+                break
         for xi in range(nx):
             xcan = [to_canonical(spec, X[xi * d + j], j) for j in range(d)]
             lam = sum(abs(iw[xi * npt + i]) for i in range(npt)) if len(iw) == nx * npt else 1.0
